@@ -16,7 +16,7 @@ ID = 'C18'
 META = {
     'rule': "all 2^5 subsets of the sources {field converter, call-level custom=, nearest enclosing dataclass's custom= (declared on the "
             "class itself or only inherited from its base), outer dataclass's custom=, registered global handler} x target types {int "
-            "(scalar built-in), a HasConverter class, a plain class only a handler knows, a list subclass (structural built-in)} x 12 "
+            "(scalar built-in), a HasConverter class, a plain class only a handler knows, a list subclass (structural built-in), str} x 17 "
             "nesting shapes (direct field, List / Optional / Dict value / variadic Tuple / Union member / struct literal / field of a "
             "nested dataclass / inherited field in a subclass with and without its own custom=, Any-typed list, dict and tuple elements) x "
             "handler forms {callable, sequence whose first handler answers NotImplemented, mapping form} x directions {from_data, "
